@@ -135,7 +135,10 @@ def gen_case(rng, big, directed=None):
     case['delta'] = [d * sc for d in case['delta']]
     case['zero'] = [z * sc for z in case['zero']]
     case['shift'] = [s / sc for s in case['shift']]
-    if rng.random() < 0.3:
+    if rng.random() < 0.08:
+        case['in_kind'] = 'regular-w'
+        case['in_weights'] = [_dy(rng, 0.125, 2, 3) * sc ** ndim for _ in range(int(np.prod(case['N'])))]
+    elif rng.random() < 0.3:
         case['family'] = 'grid'
         kind = str(rng.choice(['regular', 'regular', 'separated', 'unstructured']))
         out = {'kind': kind}
@@ -156,13 +159,102 @@ def gen_case(rng, big, directed=None):
         case['in_kind'] = 'regular' if r < 0.45 else ('separated' if r < 0.85 else 'unstructured')
         if case['in_kind'] == 'separated' and min(case['N']) < 2:
             case['in_kind'] = 'regular'
-        if case['in_kind'] != 'regular':
+        r = rng.random()
+        if r < 0.45:
+            # explicit input grid (polar or Cartesian) with a per-point weights array
+            case['in_kind'] = 'explicit'
+            case['in_spec'] = gen_spec(rng, ndim, sc, 'in')
+            case['N'] = list(case['in_spec']['dims'])
+            case['field'] = gen_field(rng, case['N'])
+        if r < 0.75 and (r >= 0.45 or rng.random() < 0.5):
+            case['out'] = gen_spec(rng, ndim, 1.0 / sc, 'out')
+        if case['in_kind'] not in ('regular', 'explicit'):
             case['in_jitter'] = [[_dy(rng, -0.25, 0.25, 4) * case['delta'][d] for _ in range(case['N'][d])]
                                  for d in range(ndim)]
             if case['in_kind'] == 'unstructured':
                 size = int(np.prod(case['N']))
                 case['in_weights'] = [_dy(rng, 0.125, 2, 3) * sc ** ndim for _ in range(size)]
     return case
+
+
+def _sorted_distinct(vals, step):
+    vals = sorted(set(vals))
+    return vals if len(vals) >= 2 else [vals[0], vals[0] + step]
+
+
+def gen_spec(rng, ndim, s, role):
+    """An explicit grid: Cartesian or (2-D) polar; regular, separated or unstructured; always with an explicit,
+    non-trivial per-point weights array (polar: r·dr·dθ).  `s` is the physical scale of the coordinates."""
+    system = 'polar' if (ndim == 2 and rng.random() < 0.55) else 'cartesian'
+    layout = str(rng.choice(['regular', 'separated', 'unstructured']))
+    nmax = {1: 24, 2: 8, 3: 4}[ndim]
+    spec = {'kind': 'explicit', 'system': system, 'layout': layout}
+    if layout == 'unstructured':
+        npts = int(rng.integers(1, 25))
+        spec['dims'] = [npts] + [1] * (ndim - 1)
+        if system == 'polar':
+            spec['coords'] = [[_dy(rng, 0.125, 4, 4) * s for _ in range(npts)], [_dy(rng, 0, 6.25, 4) for _ in range(npts)]]
+            spec['weights'] = [r * s * _dy(rng, 0.0625, 0.5, 4) for r in spec['coords'][0]]
+        else:
+            spec['coords'] = [[_dy(rng, -4, 4, 5) * s for _ in range(npts)] for _ in range(ndim)]
+            spec['weights'] = [_dy(rng, 0.125, 2, 3) * s ** ndim for _ in range(npts)]
+        return spec
+    if layout == 'regular':
+        dims = [int(rng.integers(1 if system == 'cartesian' else 2, nmax + 1)) for _ in range(ndim)]
+        if system == 'polar':
+            spec['delta'] = [_dy(rng, 0.125, 1, 4) * s, _dy(rng, 0.125, 1.5, 4)]
+            spec['zero'] = [_dy(rng, 0.125, 2, 4) * s, _dy(rng, -3, 3, 4)]
+        else:
+            spec['delta'] = [_dy(rng, 0.0625, 1.5, 5) * s for _ in range(ndim)]
+            spec['zero'] = [_dy(rng, -3, 3, 4) * s for _ in range(ndim)]
+        axes = [[spec['zero'][d] + spec['delta'][d] * i for i in range(dims[d])] for d in range(ndim)]
+    else:
+        if system == 'polar':
+            axes = [_sorted_distinct([_dy(rng, 0.125, 4, 4) * s for _ in range(int(rng.integers(2, nmax + 1)))], s),
+                    _sorted_distinct([_dy(rng, 0, 6.25, 4) for _ in range(int(rng.integers(2, nmax + 1)))], 0.5)]
+        else:
+            axes = [_sorted_distinct([_dy(rng, -4, 4, 5) * s for _ in range(int(rng.integers(2, nmax + 1)))], s) for _ in range(ndim)]
+        spec['coords'] = axes
+        dims = [len(a) for a in axes]
+    spec['dims'] = dims
+    size = int(np.prod(dims))
+    if system == 'polar':
+        r, th = np.array(axes[0]), np.array(axes[1])
+        dr = np.gradient(r) if len(r) > 1 else np.array([s])
+        dth = np.gradient(th) if len(th) > 1 else np.array([1.0])
+        spec['weights'] = [float(v) for v in np.outer(np.abs(dth), r * np.abs(dr)).ravel()]      # r·dr·dθ, r fastest
+    else:
+        spec['weights'] = [_dy(rng, 0.125, 2, 3) * s ** ndim for _ in range(size)]
+    return spec
+
+
+def spec_axes(spec):
+    if spec['layout'] == 'regular':
+        return [[spec['zero'][d] + spec['delta'][d] * i for i in range(spec['dims'][d])] for d in range(len(spec['dims']))]
+    return spec['coords']
+
+
+def spec_grid(spec):
+    import hcipy
+    cls = hcipy.PolarGrid if spec['system'] == 'polar' else hcipy.CartesianGrid
+    w = np.array(spec['weights'])
+    if spec['layout'] == 'regular':
+        return cls(hcipy.RegularCoords(np.array(spec['delta']), np.array(spec['dims']), np.array(spec['zero'])), weights=w)
+    if spec['layout'] == 'separated':
+        return cls(hcipy.SeparatedCoords([np.array(c) for c in spec['coords']]), weights=w)
+    return cls(hcipy.UnstructuredCoords([np.array(c) for c in spec['coords']]), weights=w)
+
+
+def spec_cart_full(spec):
+    """full Cartesian coordinates (longdouble, from the parameters) and the weights of an explicit grid"""
+    if spec['layout'] == 'unstructured':
+        full = [np.array(c, dtype=LD) for c in spec['coords']]
+    else:
+        full = full_coords([np.array(a, dtype=LD) for a in spec_axes(spec)])
+    if spec['system'] == 'polar':
+        r, th = full
+        full = [r * np.cos(th), r * np.sin(th)]
+    return full, np.array(spec['weights'], dtype=LD)
 
 
 def gen_steps(rng, dims, nsteps):
@@ -201,10 +293,13 @@ def gen_seq_case(rng, big):
         fov = min(1.0, fov)
         if int(M * fov) < 1:
             fov = 1.0
-        case['N'][d] = N
+        if case.get('in_kind') != 'explicit':
+            case['N'][d] = N
         case['q'][d] = q
         case['fov'][d] = float(fov)
-    if case['family'] == 'grid':
+    if case.get('in_kind') == 'regular-w':
+        case['in_weights'] = [_dy(rng, 0.125, 2, 3) * sc ** ndim for _ in range(int(np.prod(case['N'])))]
+    if case['family'] == 'grid' and case.get('in_kind') != 'explicit':
         if case.get('in_kind', 'regular') == 'separated' and min(case['N']) < 2:
             case['in_kind'] = 'regular'
         if case.get('in_kind', 'regular') != 'regular':
@@ -245,6 +340,24 @@ DIRECTED_SEQ = [
          in_kind='regular',
          out={'kind': 'separated', 'coords': [[-0.0004, -0.00015, -0.00005, 0.0, 0.0001, 0.00035], [-0.0003, -0.0001, 0.0, 0.00005, 0.00045]]},
          seq=_steps([('b', 'complex128', []), ('f', 'complex64', [])])),
+    # polar grids with r·dr·dθ weights (the transformation matrices must use the grid's own weights)
+    dict(family='grid', N=[4, 5], delta=[0.5, 1.0], zero=[0.5, 0.0], q=[1.0, 1.0], fov=[1.0, 1.0], shift=[0.0, 0.0], tensor=[], dtype='complex128',
+         field={'kind': 'random', 'seed': 31}, gseed=31, method=None, mft=[[True, True]], scale_exp=0, in_kind='explicit',
+         in_spec={'kind': 'explicit', 'system': 'polar', 'layout': 'regular', 'dims': [4, 5], 'delta': [0.5, 1.0], 'zero': [0.5, 0.0],
+                  'weights': [float(v) for v in np.outer(np.full(5, 1.0), (0.5 + 0.5 * np.arange(4)) * 0.5).ravel()]},
+         out={'kind': 'regular', 'N': [5, 4], 'delta': [0.5, 0.75], 'zero': [-1.0, -1.0]}, seq=_steps([('b', 'complex128', []), ('f', 'complex64', [2])])),
+    dict(family='grid', N=[5, 4], delta=[0.5, 0.5], zero=[-1.0, -0.75], q=[1.0, 1.0], fov=[1.0, 1.0], shift=[0.0, 0.0], tensor=[2], dtype='complex128',
+         field={'kind': 'random', 'seed': 32}, gseed=32, method=None, mft=[[True, True]], scale_exp=0, in_kind='regular',
+         out={'kind': 'explicit', 'system': 'polar', 'layout': 'separated', 'dims': [3, 4], 'coords': [[0.5, 1.25, 3.0], [0.0, 1.0, 2.5, 4.5]],
+              'weights': [float(v) for v in np.outer(np.gradient(np.array([0.0, 1.0, 2.5, 4.5])), np.array([0.5, 1.25, 3.0]) * np.gradient(np.array([0.5, 1.25, 3.0]))).ravel()]},
+         seq=_steps([('f', 'complex128', []), ('b', 'complex128', [])])),
+    dict(family='grid', N=[6, 1], delta=[1.0, 1.0], zero=[0.0, 0.0], q=[1.0, 1.0], fov=[1.0, 1.0], shift=[0.0, 0.0], tensor=[], dtype='complex128',
+         field={'kind': 'random', 'seed': 33}, gseed=33, method=None, mft=[[True, True]], scale_exp=0, in_kind='explicit',
+         in_spec={'kind': 'explicit', 'system': 'polar', 'layout': 'unstructured', 'dims': [6, 1],
+                  'coords': [[0.5, 1.0, 1.5, 2.0, 2.5, 0.25], [0.0, 1.0, 2.0, 3.0, 4.0, 5.0]], 'weights': [0.25, 0.5, 0.75, 1.0, 1.25, 0.125]},
+         out={'kind': 'explicit', 'system': 'polar', 'layout': 'regular', 'dims': [3, 3], 'delta': [0.75, 2.0], 'zero': [0.25, 0.5],
+              'weights': [float(v) for v in np.outer(np.full(3, 2.0), (0.25 + 0.75 * np.arange(3)) * 0.75).ravel()]},
+         seq=_steps([('f', 'complex64', []), ('b', 'complex128', [2])])),
 ]
 
 
@@ -277,7 +390,7 @@ def in_coords_ld(case):
     xs = []
     for d, n in enumerate(case['N']):
         x = LD(case['zero'][d]) + LD(case['delta'][d]) * np.arange(n, dtype=LD)
-        if case.get('in_kind', 'regular') != 'regular':
+        if case.get('in_kind', 'regular') in ('separated', 'unstructured'):
             x = x + np.array(case['in_jitter'][d], dtype=LD)
         xs.append(x)
     return xs
@@ -300,6 +413,11 @@ def make_in_grid(case):
     kind = case.get('in_kind', 'regular')
     if kind == 'regular':
         return hcipy.CartesianGrid(hcipy.RegularCoords(np.array(case['delta']), np.array(case['N']), np.array(case['zero'])))
+    if kind == 'regular-w':
+        return hcipy.CartesianGrid(hcipy.RegularCoords(np.array(case['delta']), np.array(case['N']), np.array(case['zero'])),
+                                   weights=np.array(case['in_weights']))
+    if kind == 'explicit':
+        return spec_grid(case['in_spec'])
     xs = [np.array(x, dtype='float64') for x in in_coords_ld(case)]
     if kind == 'separated':
         return hcipy.CartesianGrid(hcipy.SeparatedCoords(xs))
@@ -309,6 +427,8 @@ def make_in_grid(case):
 def make_out_grid(case):
     import hcipy
     o = case['out']
+    if o['kind'] == 'explicit':
+        return spec_grid(o)
     if o['kind'] == 'regular':
         return hcipy.CartesianGrid(hcipy.RegularCoords(np.array(o['delta']), np.array(o['N']), np.array(o['zero'])))
     if o['kind'] == 'separated':
@@ -350,7 +470,10 @@ def make_field(case, grid, which='field'):
 
 def grid_desc(grid):
     """(separated coords per dim | None, full coords per dim, weights) of an hcipy grid, as longdouble"""
-    if grid.is_separated:
+    if not grid.is_('cartesian'):
+        sep = None
+        full = [np.asarray(c, dtype=LD) for c in grid.as_('cartesian').coords]       # weights: the grid's own
+    elif grid.is_separated:
         sep = [np.asarray(c, dtype=LD) for c in grid.separated_coords]
         full = full_coords(sep)
     else:
@@ -436,8 +559,8 @@ def build_transforms(case, in_grid, thorough=False):
     else:
         out_grid = make_out_grid(case)
         out.append(('auto-grid', lambda: hcipy.make_fourier_transform(in_grid, out_grid)))
-    out_kind = 'regular' if out_grid.is_regular else ('separated' if out_grid.is_separated else 'unstructured')
-    if in_kind in ('regular', 'separated') and out_kind in ('regular', 'separated') and ndim <= 2:
+    in_cart, out_cart = bool(in_grid.is_('cartesian')), bool(out_grid.is_('cartesian'))
+    if in_cart and out_cart and in_grid.is_separated and out_grid.is_separated and ndim <= 2:
         combos = [[a, b] for a in (True, False) for b in (True, False)] if thorough else case['mft']
         for pre, alloc in combos:
             out.append(('mft-%d%d' % (pre, alloc), lambda pre=pre, alloc=alloc: hcipy.MatrixFourierTransform(
@@ -448,7 +571,7 @@ def build_transforms(case, in_grid, thorough=False):
         out.append(('nft-pre', lambda: hcipy.NaiveFourierTransform(in_grid, out_grid, precompute_matrices=True)))
     if in_grid.size * out_grid.size <= 1500000 and out_grid.size <= 6000 and in_grid.size <= 6000:
         out.append(('nft', lambda: hcipy.NaiveFourierTransform(in_grid, out_grid, precompute_matrices=False)))
-    if in_kind == 'regular' and out_kind == 'regular':
+    if in_cart and out_cart and in_grid.is_regular and out_grid.is_regular:
         out.append(('zoom', lambda: hcipy.ZoomFastFourierTransform(in_grid, out_grid)))
     return out_grid, out
 
@@ -474,6 +597,8 @@ def failing_class(case, name, direction, info):
     c = cls_of(name)
     if c in ('fft', 'auto') and info.get('inconsistent'):
         return 'fft-grid-inconsistent'
+    if c in ('fft', 'auto') and case.get('in_kind') == 'regular-w' and info.get('is_fft'):
+        return 'fft-per-point-weights'
     if c == 'zoom' and (case['tensor'] or len(case['N']) >= 3):
         return 'zoom-tensor-or-3d'
     return '%s-%s' % (c, direction)
@@ -492,12 +617,18 @@ def oracle_case(case, thorough=False, want_obs=False):
         try:
             out_grid, transforms = build_transforms(case, in_grid, thorough or case.get('all_switches', False))
         except Exception as e:  # noqa
-            return [('construct-raises', 'constructing the transform raised %s: %s' % (type(e).__name__, e))], obs
+            key = 'fft-per-point-weights' if case.get('in_kind') == 'regular-w' else 'construct-raises'
+            return [(key, 'constructing the transform raised %s: %s' % (type(e).__name__, e))], obs
         field = make_field(case, in_grid)
         in_sep, in_full, in_w = grid_desc(in_grid)
-        if case.get('in_kind', 'regular') != 'unstructured':
+        if case.get('in_kind', 'regular') == 'explicit':
+            in_sep = None
+            in_full, in_w = spec_cart_full(case['in_spec'])
+        elif case.get('in_kind', 'regular') != 'unstructured':
             in_sep = in_coords_ld(case)          # from the parameters, not from hcipy's grid
             in_full = full_coords(in_sep)
+        if case.get('in_kind', 'regular') == 'regular-w':
+            in_w = np.array(case['in_weights'], dtype=LD)
         if case.get('in_kind', 'regular') == 'regular':
             in_w = LD(1)
             for dl in case['delta']:
@@ -523,6 +654,7 @@ def oracle_case(case, thorough=False, want_obs=False):
                     except Exception as e:  # noqa
                         obs['detected'] = '%s: %s' % (type(e).__name__, e)
             if isinstance(ft, hcipy.FastFourierTransform):
+                info['is_fft'] = True
                 M = np.array(ft.internal_shape[::-1], dtype='float64')
                 prod = og.delta * M * in_grid.delta
                 info['inconsistent'] = bool(np.any(np.abs(prod - 2 * np.pi) > 1e-9))
@@ -542,6 +674,29 @@ def oracle_case(case, thorough=False, want_obs=False):
                 ref_b = ref_sum(o_sep, o_full, o_w, in_sep, in_full, gvals, +1, ndim) / (TWO_PI_LD ** ndim)
                 ref_cache[key_og] = (ref_f, ref_b, g)
             ref_f, ref_b, g = ref_cache[key_og]
+            # the public transformation matrices (base-class API, used by NaiveFourierTransform(precompute_matrices=True)
+            # and by wavefront-control code) against the same defining sums, once per class and output grid
+            mk = ('matrix', type(ft).__name__, key_og)
+            if mk not in ref_cache and in_grid.size * og.size <= 40000:
+                ref_cache[mk] = True
+                o_wm = grid_desc(og)[2] / float(TWO_PI_LD ** ndim)
+                for direction, getter, arg, ref, wsrc in (('forward', 'get_transformation_matrix_forward', field, ref_f, in_w),
+                                                          ('backward', 'get_transformation_matrix_backward', g, ref_b, o_wm)):
+                    try:
+                        A = np.asarray(getattr(ft, getter)())
+                        res = (A.astype(CLD) @ np.asarray(arg).reshape(T, -1).astype(CLD).T).T
+                    except Exception as e:  # noqa
+                        bad.append(('matrix-%s-raises' % direction, '%s.%s() raised %s: %s' % (type(ft).__name__, getter, type(e).__name__, e)))
+                        continue
+                    if res.shape != ref.shape:
+                        bad.append(('matrix-' + direction, '%s.%s() has shape %s for %d -> %d points' % (type(ft).__name__, getter, A.shape, in_grid.size, og.size)))
+                        continue
+                    scale = ref_scale(ref, arg, wsrc)
+                    err = float(np.abs(res - ref).max())
+                    obs['matrix_checks'] = obs.get('matrix_checks', 0) + 1
+                    if not err <= tol * scale:
+                        bad.append(('matrix-' + direction, '%s.%s() applied to the field differs from the defining sum: max error %.3g (scale %.3g)' % (
+                            type(ft).__name__, getter, err, scale)))
             for direction, arg, ref in (('forward', field, ref_f), ('backward', g, ref_b)):
                 try:
                     res = ft.forward(arg) if direction == 'forward' else ft.backward(arg)
@@ -578,19 +733,22 @@ def oracle_case(case, thorough=False, want_obs=False):
                     ref_cache[ck] = (a, r, wsrc)
                 a, r, wsrc = ref_cache[ck]
                 direction = 'forward' if st['dir'] == 'f' else 'backward'
+                rkey = '%s-%s-reused' % (cls_of(name), direction)
+                if cls_of(name) in ('fft', 'auto') and case.get('in_kind') == 'regular-w' and info.get('is_fft'):
+                    rkey = 'fft-per-point-weights'
                 try:
                     res = np.asarray(ft.forward(a) if st['dir'] == 'f' else ft.backward(a))
                 except Exception as e:  # noqa
-                    bad.append(('%s-%s-reused-raises' % (cls_of(name), direction), '%s.%s (call %d on one object) raised %s: %s' % (name, direction, si + 3, type(e).__name__, e)))
+                    bad.append((rkey + '-raises', '%s.%s (call %d on one object) raised %s: %s' % (name, direction, si + 3, type(e).__name__, e)))
                     continue
                 if res.size != r.size:
-                    bad.append(('%s-%s-reused' % (cls_of(name), direction), '%s.%s (call %d on one object) returned %d values for %d points' % (name, direction, si + 3, res.size, r.size)))
+                    bad.append((rkey, '%s.%s (call %d on one object) returned %d values for %d points' % (name, direction, si + 3, res.size, r.size)))
                     continue
                 scale = ref_scale(r, a, wsrc)
                 err = float(np.abs(res.reshape(Ts, -1).astype(CLD) - r).max())
                 obs['reuse_calls'] = obs.get('reuse_calls', 0) + 1
                 if not err <= tol_for(st['dtype']) * scale:
-                    bad.append(('%s-%s-reused' % (cls_of(name), direction),
+                    bad.append((rkey,
                                 '%s.%s, call %d on one object (%s, tensor %s), differs from the defining sum: max error %.3g (scale %.3g); a fresh object is right' % (
                                     name, direction, si + 3, st['dtype'], st['tensor'], err, scale)))
     return bad, obs
@@ -670,6 +828,8 @@ def correspondence_requests(case, ft):
             if abs(og.zero[d] - zero_m) > 1e-10 * (abs(zero_m) + abs(delta_m) * Mos[d]):
                 return 'output zero[%d]: implementation %r, model %r' % (d, float(og.zero[d]), zero_m)
         w = float(Fraction(kv['w']))
+        if case.get('in_kind') == 'regular-w':
+            return None          # per-point weights: the model's weight is the cell area only
         if not np.isscalar(ft.weights) or abs(ft.weights - w) > 1e-12 * abs(w):
             return 'weights: implementation %r, model %r' % (ft.weights, w)
         return None
@@ -697,6 +857,10 @@ def selection_requests(case, obs):
     reqs = []
     ndim = len(case['N'])
     in_kind = case.get('in_kind', 'regular')
+    if in_kind == 'explicit' or (case['family'] == 'grid' and case['out']['kind'] == 'explicit'):
+        return reqs          # polar / explicitly weighted grids: oracle only
+    if in_kind == 'regular-w':
+        in_kind = 'regular'
     for name, clsname in sorted(obs.get('auto', {}).items()):
         if name == 'auto-q':
             out = 'none'
@@ -872,8 +1036,13 @@ def count_case(ctx, case, obs):
             ctx.count('reuse-axis:fov=1' if case['fov'][d] == 1 else ('reuse-axis:fov<1,q·fov<1' if qf < 1 else ('reuse-axis:fov<1,q·fov≈1' if qf < 1 + Fraction(1, 2 * max(1, case['N'][d])) * 2 else 'reuse-axis:fov<1,q·fov>1')))
     ctx.count('fft-backend:' + str(case.get('method')))
     if case['family'] == 'grid':
-        ctx.count('out-grid:' + case['out']['kind'])
-        ctx.count('in-grid:' + case.get('in_kind', 'regular'))
+        o = case['out']
+        ctx.count('out-grid:' + (o['kind'] if o['kind'] != 'explicit' else '%s-%s+weights' % (o['system'], o['layout'])))
+        ik = case.get('in_kind', 'regular')
+        ctx.count('in-grid:' + (ik if ik != 'explicit' else '%s-%s+weights' % (case['in_spec']['system'], case['in_spec']['layout'])))
+    elif case.get('in_kind') == 'regular-w':
+        ctx.count('in-grid:regular+weights (fft family)')
+    ctx.count('transformation-matrix checks', obs.get('matrix_checks', 0))
     for name in obs.get('impls', []):
         ctx.count('impl:' + name)
     ft = obs.get('fft')
@@ -1005,7 +1174,7 @@ def run(ctx, prop='C01'):
             for ls, chk, stream in fftparams_requests(case, ft):
                 checks.append((len(lines), len(ls), chk, case, stream))
                 lines += ls
-            if int(np.prod(ft.internal_shape)) <= (400000 if thorough else 60000):
+            if int(np.prod(ft.internal_shape)) <= (400000 if thorough else 60000) and case.get('in_kind') != 'regular-w':
                 q, fov, shift = np.array(case['q']), np.array(case['fov']), np.array(case['shift'])
                 try:
                     emu = hcipy.FastFourierTransform(make_in_grid(case), q, fov, shift, emulate_fftshifts=True)
